@@ -32,7 +32,9 @@ OpsOf(k) ==
   (IF k \in Shapes \cup {"Text", "Image"} THEN {"abs"} ELSE {}) \cup
   (IF k \in Shapes \cup {"Subpath"} THEN {"topath"} ELSE {}) \cup
   (IF k = "Matrix" THEN {"inv", "matmul"} ELSE {}) \cup
-  (IF k \in {"Path", "PathT", "Point", "Length"} \cup Segments THEN {"add"} ELSE {})
+  (IF k \in {"Path", "PathT", "Point", "Length"} \cup Segments THEN {"add"} ELSE {}) \cup
+  (IF k \in {"Path", "PathT"} THEN {"radd"} ELSE {}) \cup                                      \* "path data" + x
+  (IF k \in Segments \cup Shapes \cup Groups \cup {"Point", "Text", "Image", "Subpath"} THEN {"mulid"} ELSE {})   \* x * identity
 
 \* kind of the derived object
 ResultKind(k, op) ==
